@@ -799,7 +799,7 @@ func genFuzz(stream string, seed uint64, n int) []GenCase {
 		}
 	}
 	// a host function may panic with any value, not just a string: an error, an integer, a struct, a slice, a float
-	for kind := 0; kind <= 5; kind++ {
+	for kind := 0; kind <= 6; kind++ {
 		for _, sc := range []string{"return hp();", "x = hp(); return 1;", "function f() { return hp(); } return f();", "if (Flag) { return hp(); } return 2;", "foreach v in [1, 2] { hp(); } return 3;"} {
 			c := Case{ID: fmt.Sprintf("%s-%d", stream, id), Script: sc, Opt: id%2 == 0, Tags: []string{"host-panic-value"}, Show: []string{"runbool", "spec"},
 				Fns:  []HostFn{recFn(), {Name: "hp", Kind: "panic", I: kind}},
